@@ -12,6 +12,8 @@
 #include <string>
 #include <vector>
 #include <sstream>
+#include <map>
+#include <memory>
 #include <fstream>
 #include <iostream>
 #include <algorithm>
@@ -55,7 +57,7 @@ struct Suf { string name; int kind; vector<double> vals; };
 struct SolSuf { string name; int kind; vector<std::pair<int,double>> ent; };
 
 struct Case {
-  string id; int api, text, comments, flags, n;
+  string id; int session, api, text, comments, flags, n;
   bool hasT; vector<int> types; vector<double> lb, ub;
   int sense; double c0; bool hasC; vector<double> c;
   int qfmt; vector<size_t> qstart; vector<int> qidx; vector<double> qval;
@@ -70,7 +72,7 @@ struct Case {
 static Case parse(Tok& k) {
   Case c;
   if (k.s() != "C") throw std::runtime_error("bad case");
-  c.id = k.s(); c.api = k.i(); c.text = k.i(); c.comments = k.i(); c.flags = k.i(); c.n = k.i();
+  c.id = k.s(); c.session = k.i(); c.api = k.i(); c.text = k.i(); c.comments = k.i(); c.flags = k.i(); c.n = k.i();
   c.hasT = k.i();
   if (c.hasT) for (int j = 0; j < c.n; ++j) c.types.push_back(k.i());
   for (int j = 0; j < c.n; ++j) c.lb.push_back(k.d());
@@ -227,7 +229,18 @@ static void print_solution(std::ostream& o, const string& id, int solve_result, 
   if (have_obj == 2) o << id << " sol obj crash\n";
 }
 
+// A session = objects that outlive one model: one mp::NLSolver (owns PreprocessData pd_), one C solver,
+// and one PreprocessData handed to NLModel::WriteNL.  session 0 = fresh objects for this case.
+struct Session {
+  std::unique_ptr<mp::NLSolver> nls;
+  NLW2_NLSolver_C cs{}; bool has_cs = false;
+  mp::NLModel::PreprocessData pd;
+};
+static std::map<int, Session> g_sessions;
+
 static void run_case(const Case& c, const string& wd, std::ostream& o) {
+  Session local_session;
+  Session& S = c.session ? g_sessions[c.session] : local_session;
   const string& id = c.id;
   string stub = wd + "/" + id;
   for (const char* ext : {".nl", ".col", ".row", ".sol"}) std::remove((stub + ext).c_str());
@@ -262,14 +275,15 @@ static void run_case(const Case& c, const string& wd, std::ostream& o) {
   }
   // ---- permutation exported by NLModel::WriteNL
   mp::NLUtils ut;
-  mp::NLModel::PreprocessData pd;
+  mp::NLModel::PreprocessData& pd = S.pd;
   string werr = mdl2.WriteNL(stub + "w", opts, ut, pd);
   o << id << " perm"; for (int v : pd.vperm_) o << " " << v; o << "\n";
   o << id << " inv"; for (int v : pd.vperm_inv_) o << " " << v; o << "\n";
 
   // ---- load through NLSolver (C++ or C API)
-  mp::NLSolver nls;
-  NLW2_NLModel_C cm{}; NLW2_NLSolver_C cs{};
+  if (!S.nls) S.nls.reset(new mp::NLSolver);
+  mp::NLSolver& nls = *S.nls;
+  NLW2_NLModel_C cm{}; NLW2_NLSolver_C& cs = S.cs;
   bool loaded;
   if (c.api == 0) {
     nls.SetFileStub(stub); nls.SetNLOptions(opts);
@@ -291,7 +305,7 @@ static void run_case(const Case& c, const string& wd, std::ostream& o) {
       sc.numval_ = (int)s.vals.size(); sc.values_ = s.vals.data();
       NLW2_AddSuffix_C(&cm, sc);
     }
-    cs = NLW2_MakeNLSolver_C(nullptr);
+    if (!S.has_cs) { cs = NLW2_MakeNLSolver_C(nullptr); S.has_cs = true; }
     NLW2_SetFileStub_C(&cs, stub.c_str()); NLW2_SetNLOptions_C(&cs, opts);
     loaded = NLW2_LoadNLModel_C(&cs, &cm);
   }
@@ -382,7 +396,8 @@ static void run_case(const Case& c, const string& wd, std::ostream& o) {
       print_solution(o, id, sol.solve_result_, x, y, sufs, ov, have);
     }
   }
-  if (c.api) { NLW2_DestroyNLSolver_C(&cs); NLW2_DestroyNLModel_C(&cm); }
+  if (c.api) NLW2_DestroyNLModel_C(&cm);
+  if (!c.session && S.has_cs) { NLW2_DestroyNLSolver_C(&cs); S.has_cs = false; }
   // both writes of the same model must give the same bytes
   {
     std::ifstream a(stub + ".nl", std::ios::binary), b(stub + "w.nl", std::ios::binary);
